@@ -4,11 +4,14 @@ import (
 	"bufio"
 	"fmt"
 	"io"
+	"os"
 	"os/exec"
 	"strings"
 	"sync"
 	"time"
 )
+
+var SlowDir = os.Getenv("VERIF_SLOWLOG")
 
 type Result int
 
@@ -27,6 +30,15 @@ type Solver struct {
 	in        io.WriteCloser
 	out       *bufio.Reader
 	declared  map[string]bool
+	defined   map[int64]bool
+	stack     []int64
+	LIA       bool
+	liaOK     map[int64]bool
+	liaRanged map[string]int
+	varMemo   map[int64][]*Term
+	liaWeak   int
+	Hist      [16]int
+	HistT     [16]time.Duration
 	TimeoutMs int
 	Queries   int
 	Time      time.Duration
@@ -70,6 +82,11 @@ func (s *Solver) start() error {
 	s.cmd, s.in = cmd, in
 	s.out = bufio.NewReaderSize(out, 1<<20)
 	s.declared = map[string]bool{}
+	s.defined = map[int64]bool{}
+	s.stack = nil
+	s.liaOK = map[int64]bool{}
+	s.liaRanged = map[string]int{}
+	s.varMemo = map[int64][]*Term{}
 	s.dead = false
 	s.lines = make(chan string, 1024)
 	go func(r *bufio.Reader, ch chan string) {
@@ -85,6 +102,7 @@ func (s *Solver) start() error {
 		}
 	}(s.out, s.lines)
 	s.send("(set-option :produce-models true)")
+	s.send("(set-option :global-declarations true)")
 	if s.Kind == "cvc5" {
 		s.send("(set-logic ALL)")
 	} else {
@@ -137,29 +155,156 @@ func (s *Solver) readLine(d time.Duration) (string, bool) {
 	}
 }
 
-// Check decides the conjunction of asserts. If wantModel, values for the given vars
-// are returned when sat.
-func (s *Solver) Check(asserts []*Term, modelVars []*Term) (Result, map[string]uint64, string) {
+// emit writes the definitions needed for t (shared sub-terms get a global define-fun named
+// after their hash-consed id) and returns the text of t.
+func (s *Solver) emit(sb *strings.Builder, t *Term) string {
+	cnt := map[int64]int{}
+	var count func(t *Term)
+	count = func(t *Term) {
+		cnt[t.ID]++
+		if cnt[t.ID] > 1 || s.defined[t.ID] {
+			return
+		}
+		for _, a := range t.Args {
+			count(a)
+		}
+	}
+	count(t)
+	var write func(out *strings.Builder, t *Term, top bool)
+	var define func(t *Term)
+	write = func(out *strings.Builder, t *Term, top bool) {
+		if !top && s.defined[t.ID] {
+			fmt.Fprintf(out, "t!%d", t.ID)
+			return
+		}
+		switch t.Op {
+		case "const":
+			out.WriteString(constStr(t))
+			return
+		case "var":
+			d := fmt.Sprintf("(declare-fun %s () %s)", t.Name, t.S)
+			if !s.declared[d] {
+				s.declared[d] = true
+				sb.WriteString(d)
+				sb.WriteByte('\n')
+			}
+			out.WriteString(t.Name)
+			return
+		case "app":
+			if !s.declared["uf:"+t.Name] {
+				s.declared["uf:"+t.Name] = true
+				var as []string
+				for _, a := range t.Args {
+					as = append(as, a.S.String())
+				}
+				fmt.Fprintf(sb, "(declare-fun %s (%s) %s)\n", t.Name, strings.Join(as, " "), t.S)
+			}
+			out.WriteString("(" + t.Name)
+		case "extract":
+			fmt.Fprintf(out, "((_ extract %d %d)", t.X, t.Y)
+		case "zext":
+			fmt.Fprintf(out, "((_ zero_extend %d)", t.X)
+		case "sext":
+			fmt.Fprintf(out, "((_ sign_extend %d)", t.X)
+		default:
+			out.WriteString("(" + t.Op)
+		}
+		for _, a := range t.Args {
+			out.WriteByte(' ')
+			write(out, a, false)
+		}
+		out.WriteByte(')')
+	}
+	define = func(t *Term) {
+		if s.defined[t.ID] || len(t.Args) == 0 {
+			return
+		}
+		for _, a := range t.Args {
+			define(a)
+		}
+		if cnt[t.ID] > 1 {
+			var b strings.Builder
+			write(&b, t, true)
+			fmt.Fprintf(sb, "(define-fun t!%d () %s %s)\n", t.ID, t.S, b.String())
+			s.defined[t.ID] = true
+		}
+	}
+	define(t)
+	var b strings.Builder
+	write(&b, t, false)
+	return b.String()
+}
+
+// Check decides pc ∧ extra. The solver's assertion stack mirrors pc (one push level per
+// conjunct), so consecutive queries along a path, and sibling paths, only send what changed.
+func (s *Solver) Check(pc []*Term, extra []*Term, modelVars []*Term) (Result, map[string]uint64, string) {
 	s.mu.Lock()
 	defer s.mu.Unlock()
 	t0 := time.Now()
-	defer func() { s.Time += time.Since(t0); s.Queries++ }()
+	defer func() {
+		d := time.Since(t0)
+		s.Time += d
+		s.Queries++
+		if d > 3*time.Second && SlowDir != "" {
+			all := append(append([]*Term(nil), pc...), extra...)
+			decls, body := Render(all)
+			txt := strings.Join(decls, "\n") + "\n" + strings.Join(body, "\n") + "\n(check-sat)\n"
+			os.WriteFile(fmt.Sprintf("%s/slow_%d_%d.smt2", SlowDir, os.Getpid(), s.Queries), []byte(fmt.Sprintf("; %v %s\n", d, s.Kind)+txt), 0o644)
+		}
+		b := 0
+		for d > time.Millisecond<<uint(b) && b < 15 {
+			b++
+		}
+		s.Hist[b]++
+		s.HistT[b] += d
+	}()
 
-	for _, a := range asserts {
+	for _, a := range pc {
 		if a.IsFalse() {
 			return Unsat, nil, ""
 		}
 	}
-	decls, body := Render(asserts)
-	var sb strings.Builder
-	for _, d := range decls {
-		if !s.declared[d] {
-			s.declared[d] = true
-			sb.WriteString(d)
-			sb.WriteByte('\n')
+	for _, a := range extra {
+		if a.IsFalse() {
+			return Unsat, nil, ""
 		}
 	}
-	// model vars must be declared even if they were simplified away
+	var sb strings.Builder
+	k := 0
+	for k < len(s.stack) && k < len(pc) && s.stack[k] == pc[k].ID {
+		k++
+	}
+	if k < len(s.stack) {
+		fmt.Fprintf(&sb, "(pop %d)\n", len(s.stack)-k)
+		s.stack = s.stack[:k]
+	}
+	if s.LIA {
+		for n, d := range s.liaRanged {
+			if d > k {
+				delete(s.liaRanged, n)
+			}
+		}
+	}
+	for i := k; i < len(pc); i++ {
+		var txt string
+		if s.LIA {
+			txt = s.liaEmit(&sb, pc[i], i+1)
+		} else {
+			txt = s.emit(&sb, pc[i])
+		}
+		sb.WriteString("(push 1)\n(assert " + txt + ")\n")
+		s.stack = append(s.stack, pc[i].ID)
+	}
+	var etxt []string
+	for _, e := range extra {
+		if !e.IsTrue() {
+			if s.LIA {
+				etxt = append(etxt, s.liaEmit(&sb, e, len(pc)+1))
+			} else {
+				etxt = append(etxt, s.emit(&sb, e))
+			}
+		}
+	}
 	for _, v := range modelVars {
 		d := fmt.Sprintf("(declare-fun %s () %s)", v.Name, v.S)
 		if !s.declared[d] {
@@ -169,9 +314,8 @@ func (s *Solver) Check(asserts []*Term, modelVars []*Term) (Result, map[string]u
 		}
 	}
 	sb.WriteString("(push 1)\n")
-	for _, b := range body {
-		sb.WriteString(b)
-		sb.WriteByte('\n')
+	for _, e := range etxt {
+		sb.WriteString("(assert " + e + ")\n")
 	}
 	sb.WriteString("(check-sat)")
 	s.send(sb.String())
@@ -202,9 +346,6 @@ func (s *Solver) Check(asserts []*Term, modelVars []*Term) (Result, map[string]u
 		if strings.HasPrefix(l, "(error") {
 			s.Errors++
 			note = l
-			// drain: solver will still answer check-sat; treat as unknown
-			res = Unknown
-			// keep reading until an answer line
 			continue
 		}
 	}
@@ -214,7 +355,6 @@ func (s *Solver) Check(asserts []*Term, modelVars []*Term) (Result, map[string]u
 	var model map[string]uint64
 	if res == Sat && len(modelVars) > 0 {
 		model = map[string]uint64{}
-		// chunk get-value requests
 		const chunk = 200
 		for i := 0; i < len(modelVars); i += chunk {
 			j := i + chunk
@@ -322,11 +462,11 @@ func CheckText(kind string, script string, timeout time.Duration) (Result, strin
 		<-done
 	}
 	txt := string(out)
-	if strings.Contains(txt, "(error") {
-		return Unknown, txt
-	}
 	for _, l := range strings.Split(txt, "\n") {
 		l = strings.TrimSpace(l)
+		if strings.HasPrefix(l, "(error") {
+			return Unknown, txt
+		}
 		switch l {
 		case "sat":
 			return Sat, txt
@@ -337,4 +477,72 @@ func CheckText(kind string, script string, timeout time.Duration) (Result, strin
 		}
 	}
 	return Unknown, txt
+}
+
+
+// SetTimeout changes the per-query timeout of the persistent process.
+func (s *Solver) SetTimeout(ms int) {
+	s.mu.Lock()
+	defer s.mu.Unlock()
+	if s.Kind != "cvc5" {
+		s.send(fmt.Sprintf("(set-option :timeout %d)", ms))
+	}
+}
+
+// CheckOneShot decides pc ∧ extra in a fresh solver process (the one-shot tactic pipeline is
+// much faster than the incremental core on range/ite-heavy byte equalities).
+func CheckOneShot(kind string, pc, extra, modelVars []*Term, timeout time.Duration) (Result, map[string]uint64, string) {
+	all := append(append([]*Term(nil), pc...), extra...)
+	for _, a := range all {
+		if a.IsFalse() {
+			return Unsat, nil, ""
+		}
+	}
+	decls, body := Render(all)
+	have := map[string]bool{}
+	for _, d := range decls {
+		have[d] = true
+	}
+	var sb strings.Builder
+	if kind == "cvc5" {
+		sb.WriteString("(set-logic ALL)\n")
+	}
+	sb.WriteString("(set-option :produce-models true)\n")
+	for _, d := range decls {
+		sb.WriteString(d + "\n")
+	}
+	for _, v := range modelVars {
+		d := fmt.Sprintf("(declare-fun %s () %s)", v.Name, v.S)
+		if !have[d] {
+			have[d] = true
+			sb.WriteString(d + "\n")
+		}
+	}
+	for _, b := range body {
+		sb.WriteString(b + "\n")
+	}
+	sb.WriteString("(check-sat)\n")
+	if len(modelVars) > 0 {
+		var names []string
+		for _, v := range modelVars {
+			names = append(names, v.Name)
+		}
+		sb.WriteString("(get-value (" + strings.Join(names, " ") + "))\n")
+	}
+	t0 := time.Now()
+	res, out := CheckText(kind, sb.String(), timeout)
+	if d := time.Since(t0); d > 3*time.Second && SlowDir != "" {
+		os.WriteFile(fmt.Sprintf("%s/oneshot_%d_%d.smt2", SlowDir, os.Getpid(), time.Now().UnixNano()), []byte(fmt.Sprintf("; %v %s %v\n", d, kind, res)+sb.String()), 0o644)
+	}
+	if res == Unsat && strings.Contains(out, "(error") {
+		// get-value after unsat errors; ignore that specific error
+	}
+	var model map[string]uint64
+	if res == Sat && len(modelVars) > 0 {
+		model = map[string]uint64{}
+		if i := strings.Index(out, "("); i >= 0 {
+			parseModel(out[i:], model)
+		}
+	}
+	return res, model, ""
 }
